@@ -1,6 +1,7 @@
 import Pymc.Proofs.FailoverDt
 import Pymc.Proofs.FailoverDemo
 import Pymc.Proofs.HashCallExamples
+import Pymc.Proofs.HashCallSetExamples
 /-!
 # C13 — failover: bounded probing, eviction, rerouting, recovery
 
@@ -503,5 +504,250 @@ example : HashCall.ChronoCalls 0 HashCallExamples.demoCalls ∧ RouteLaw prefRou
   ⟨by simp [HashCall.ChronoCalls, HashCallExamples.demoCalls], prefRoute_law, by decide, by decide +kernel⟩
 
 end hash
+
+/-! ## `HashClient ∘ Client`: the multi-key paths (`get_many` / `gets_many`, `set_many`, `delete_many`)
+
+Model: `Pymc/Model/HashCallMany.lean` — a history is a list of general calls (`HashCall.MCall`: a single-key
+operation, `get_many` / `gets_many`, `set_many`, or `delete_many`), run by `HashCall.runM`; every contact is a real
+`Client.call` (`.getMany batch` / `.setMany batch …` / `.delete key …`) on the client object registered for the
+server.  What a call is for the abstract model is `HashCall.absOfCall`: a single-key call is a `_run_cmd` event (none
+when `check_key_helper` rejected the key); `get_many` / `set_many` are ONE `.getMany` / `.setMany` event over the
+routing keys, in the environment `HashCall.envOfBatches` read off the observation (every server does what the inner
+`Client.call` made on it did; a server is handed at most one batch); `delete_many` — in the code a loop of
+`_run_cmd("delete", …)` — is the sequence of `_run_cmd` events of the `delete`s it got round to.
+
+**Hypothesis** (`HashCall.projOK c mc ob`, a decidable predicate on the call and its observation; `HashCall.allProjOK`
+for a run): nothing for a single-key call or a `delete_many`; a `get_many` / `set_many` must not have been ended
+
+* by `check_key_helper` (`isIllegalKey ob.res = false`): the abstract model does not validate keys, and the real
+  first loop has by then run `_retry_dead` for the keys in front of the illegal one
+  (`HashCallExamples.demo_illegalKey_needed`);
+* under `ignore_exc=True` only: by a `BaseException` of an inner call (`Exc.sock code`, `code ≥ 100`;
+  `HashCall.escapedBase ob.res = false` — a `BaseException` always ends the call, so this is the same as "no inner call
+  of the public call raised one"): it escapes at once, while the abstract model, which has no `BaseException`, sees a
+  failure that `ignore_exc` swallows and carries on with the remaining batches — and its `_set_many` even counts the
+  batch as served (`HashCallExamples.demo_baseExc_needed`).  Without `ignore_exc` both models stop there, and no
+  hypothesis is needed (`HashCallExamples.demo_baseExc_strict`). -/
+section hashmany
+
+variable {RK : Type}
+
+/-- C13 (`HashClient ∘ Client`, one multi-key call).  After any general composed history, for the next call at time
+`now`, if it satisfies `HashCall.projOK`:
+
+* a `get_many` / `gets_many` is the abstract `stepOp` for the event `.getMany` over the routing keys, in the environment
+  read off the observation: same bookkeeping state afterwards, same result (`HashCall.absResMany`: an escaping exception
+  as in the single-key case; when the method returned, per key whether its batch was served — the assignment of keys to
+  servers being that of the abstract model on the state before the call), same contact log;
+* a `set_many` likewise is the abstract `stepOp` for the event `.setMany`;
+* any call (this covers `delete_many`, a sequence of `_run_cmd` events, and the single-key calls) is the abstract `run`
+  over `HashCall.absOfCall`. -/
+theorem C13_hash_many_step_projection (ccfg : Wire.Cfg) (c : Cfg) (route : List Srv → RK → Option Srv) (hlaw : RouteLaw route)
+    (servers : List Srv) (t0 : Time) (calls : List (HashCall.MCall RK)) (now : Time) :
+    let st := (HashCall.runM ccfg c route (HashCall.init servers t0) 0 calls).1
+    (∀ (gets : Bool) (keys : List (RK × _root_.Key.K)) (scripts : Srv → Exchange.Script),
+      let mc : HashCall.MCall RK := { op := .getMany gets keys scripts, now := now }
+      let out := HashCall.callM ccfg c route st calls.length mc
+      HashCall.projOK c mc out.2 = true →
+        stepOp c route st.proj
+            { now := now, env := HashCall.envOfBatches out.2.batches, op := .getMany (keys.map (·.1)) } =
+          (out.1.proj, HashCall.absResMany c (HashCall.assignedOf c route now st.fo (keys.map (·.1))) out.2,
+            HashCall.contactsOfBatches now out.2.batches)) ∧
+    (∀ (items : List (RK × _root_.Key.K × Wire.Val)) (expire : Wire.IntArg) (noreply : Option Bool) (flags : Option Int)
+        (scripts : Srv → List (_root_.Key.K × Wire.Val) → Exchange.Script),
+      let mc : HashCall.MCall RK := { op := .setMany items expire noreply flags scripts, now := now }
+      let out := HashCall.callM ccfg c route st calls.length mc
+      HashCall.projOK c mc out.2 = true →
+        stepOp c route st.proj
+            { now := now, env := HashCall.envOfBatches out.2.batches, op := .setMany (items.map (·.1)) } =
+          (out.1.proj, HashCall.absResMany c (HashCall.assignedOf c route now st.fo (items.map (·.1))) out.2,
+            HashCall.contactsOfBatches now out.2.batches)) ∧
+    (∀ mc : HashCall.MCall RK,
+      let out := HashCall.callM ccfg c route st calls.length mc
+      HashCall.projOK c mc out.2 = true →
+        run c route st.proj (HashCall.absOfCall ccfg c route st calls.length mc).1 =
+          (out.1.proj, (HashCall.absOfCall ccfg c route st calls.length mc).2)) := by
+  intro st
+  have hcov : HashCall.Cover st :=
+    HashCall.cover_runM ccfg c route hlaw (HashCall.init servers t0) 0 calls (HashCall.cover_init servers t0)
+  refine ⟨?_, ?_, ?_⟩
+  · intro gets keys scripts mc out hok
+    obtain ⟨hill, hb⟩ := HashCall.projOK_many (r := out.2.res) hok
+    exact HashCall.getManyH_proj ccfg c route hlaw st calls.length now gets keys scripts hcov hill hb
+  · intro items expire noreply flags scripts mc out hok
+    obtain ⟨hill, hb⟩ := HashCall.projOK_many (r := out.2.res) hok
+    exact HashCall.setManyH_proj ccfg c route hlaw st calls.length now items expire noreply flags scripts hcov hill hb
+  · intro mc out hok
+    exact HashCall.callM_proj ccfg c route hlaw st calls.length mc hcov hok
+
+/-- C13 (`HashClient ∘ Client`, general runs).  A general composed run from a fresh `HashClient` in which every call
+satisfies `HashCall.projOK` is a run of the abstract model from `init` over the abstract history `HashCall.absOfRun`
+(per call the events of `HashCall.absOfCall`): the bookkeeping state at the end is the projection of the composed
+state, and the per-event results and contact logs are those read off the composed observations. -/
+theorem C13_hash_many_projection (ccfg : Wire.Cfg) (c : Cfg) (route : List Srv → RK → Option Srv) (hlaw : RouteLaw route)
+    (servers : List Srv) (t0 : Time) (calls : List (HashCall.MCall RK)) :
+    let r := HashCall.runM ccfg c route (HashCall.init servers t0) 0 calls
+    HashCall.allProjOK c calls r.2 = true →
+      run c route (init servers t0) (HashCall.absOfRun ccfg c route (HashCall.init servers t0) 0 calls).1 =
+        (r.1.proj, (HashCall.absOfRun ccfg c route (HashCall.init servers t0) 0 calls).2) := by
+  intro r hok
+  have h := HashCall.runM_proj ccfg c route hlaw (HashCall.init servers t0) 0 calls (HashCall.cover_init servers t0) hok
+  rw [HashCall.init_proj] at h
+  exact h
+
+/-- non-vacuity: the seven-call history `HashCallExamples.setCalls` (`set_many` over two servers with `noreply=False`;
+server 0 fails, is skipped inside its retry window — its keys are reported —, refuses the retry made by a `delete_many`,
+is evicted by a `set_many`, both items go to server 1, server 0 comes back) satisfies the hypothesis; it gives rise to
+eight abstract events (`(time, (kind, keys), env 0, env 1)`; kind 2 = `set_many`, 0 = `_run_cmd`: one for the
+`delete_many` that raised at its first key, two for the one that completed), and `Failover.run` on them ends in the same
+bookkeeping state with the results and contact logs read off the composed run.  The `get_many` history
+`HashCallExamples.manyCalls` under `ignore_exc=True` satisfies the hypothesis as well. -/
+example :
+    HashCall.allProjOK HashCallExamples.cfgStrict HashCallExamples.setCalls
+      (HashCall.runM {} HashCallExamples.cfgStrict prefRoute (HashCall.init [0, 1] 0) 0 HashCallExamples.setCalls).2 = true ∧
+    (HashCall.absOfRun {} HashCallExamples.cfgStrict prefRoute (HashCall.init [0, 1] 0) 0 HashCallExamples.setCalls).1.map
+        (fun e => (e.now, HashCallExamples.opTag e.op, e.env 0, e.env 1)) =
+      [(0, (2, 2), .ok, .ok), (1, (2, 2), .oserror, .ok), (2, (2, 2), .ok, .ok), (3, (0, 1), .oserror, .oserror),
+       (5, (2, 2), .oserror, .ok), (6, (2, 2), .ok, .ok), (12, (0, 1), .ok, .ok), (12, (0, 1), .ok, .ok)] ∧
+    (HashCall.absOfRun {} HashCallExamples.cfgStrict prefRoute (HashCall.init [0, 1] 0) 0 HashCallExamples.setCalls).2 =
+      [(.multi [true, true], [(0, 0, .ok), (1, 0, .ok)]),
+       (.raisedServerError 0 .oserror, [(0, 1, .oserror)]),
+       (.multi [false, true], [(1, 2, .ok)]),
+       (.raisedServerError 0 .oserror, [(0, 3, .oserror)]),
+       (.raisedServerError 0 .oserror, [(0, 5, .oserror)]),
+       (.multi [true, true], [(1, 6, .ok)]),
+       (.value, [(0, 12, .ok)]),
+       (.value, [(1, 12, .ok)])] ∧
+    run HashCallExamples.cfgStrict prefRoute (init [0, 1] 0)
+        (HashCall.absOfRun {} HashCallExamples.cfgStrict prefRoute (HashCall.init [0, 1] 0) 0 HashCallExamples.setCalls).1 =
+      ({ nodes := [1, 0], failed := [], dead := [], lastDeadCheck := 12 },
+       (HashCall.absOfRun {} HashCallExamples.cfgStrict prefRoute (HashCall.init [0, 1] 0) 0 HashCallExamples.setCalls).2) ∧
+    HashCall.allProjOK HashCallExamples.cfgIgnore HashCallExamples.manyCalls
+      (HashCall.runM {} HashCallExamples.cfgIgnore prefRoute (HashCall.init [0, 1] 0) 0 HashCallExamples.manyCalls).2 = true :=
+  ⟨HashCallExamples.demo_set_projection.1, HashCallExamples.demo_set_projection.2.1,
+    HashCallExamples.demo_set_projection.2.2.1, HashCallExamples.demo_set_projection.2.2.2, HashCallExamples.demo_many_projOK⟩
+
+/-- the hypothesis is needed, 1 (`BaseException` under `ignore_exc`): `get_many([k, z])` on a fresh
+`HashClient(ignore_exc=True)` over servers 0 and 1, a `KeyboardInterrupt` while connecting to server 0.  The real call is
+over at once (server 1 is never contacted); the abstract `get_many` in the environment of the observation swallows the
+failure of server 0 and contacts server 1. -/
+example :
+    HashCall.projOK HashCallExamples.cfgIgnore HashCallExamples.getInterrupted
+      (HashCall.callM {} HashCallExamples.cfgIgnore prefRoute (HashCall.init [0, 1] 0) 0 HashCallExamples.getInterrupted).2 = false ∧
+    (HashCall.callM {} HashCallExamples.cfgIgnore prefRoute (HashCall.init [0, 1] 0) 0 HashCallExamples.getInterrupted).2.res =
+      .raised 0 (.sock 130) ∧
+    (HashCall.absOfCall {} HashCallExamples.cfgIgnore prefRoute (HashCall.init [0, 1] 0) 0 HashCallExamples.getInterrupted).2 =
+      [(.default, [(0, 0, .othererror)])] ∧
+    (run HashCallExamples.cfgIgnore prefRoute (HashCall.init [0, 1] 0).proj
+        (HashCall.absOfCall {} HashCallExamples.cfgIgnore prefRoute (HashCall.init [0, 1] 0) 0 HashCallExamples.getInterrupted).1).2 =
+      [(.multi [false, true], [(0, 0, .othererror), (1, 0, .ok)])] := by
+  refine ⟨by decide +kernel, by decide +kernel, by decide +kernel, by decide +kernel⟩
+
+/-- the hypothesis is needed, 2 (`set_many`, `BaseException` under `ignore_exc`): the abstract `_set_many` swallows it,
+reports the batch of server 0 as served and goes on to server 1. -/
+example :
+    HashCall.projOK HashCallExamples.cfgIgnore HashCallExamples.setInterrupted
+      (HashCall.callM {} HashCallExamples.cfgIgnore prefRoute (HashCall.init [0, 1] 0) 0 HashCallExamples.setInterrupted).2 = false ∧
+    (HashCall.callM {} HashCallExamples.cfgIgnore prefRoute (HashCall.init [0, 1] 0) 0 HashCallExamples.setInterrupted).2.res =
+      .raised 0 (.sock 130) ∧
+    (run HashCallExamples.cfgIgnore prefRoute (HashCall.init [0, 1] 0).proj
+        (HashCall.absOfCall {} HashCallExamples.cfgIgnore prefRoute (HashCall.init [0, 1] 0) 0 HashCallExamples.setInterrupted).1).2 =
+      [(.multi [true, true], [(0, 0, .othererror), (1, 0, .ok)])] := by
+  refine ⟨by decide +kernel, by decide +kernel, by decide +kernel⟩
+
+/-- the hypothesis is needed, 3 (`check_key_helper` in the middle of the first loop): server 0 was evicted at t=0
+(`retry_attempts=0`); `get_many([k, " "])` at t=10 brings it back while routing `k`, then raises
+`MemcacheIllegalInputError` on the second key without contacting anybody; the abstract `get_many` over the same routing
+keys contacts server 0. -/
+example :
+    let st := (HashCall.runM {} HashCallExamples.cfgNoRetry prefRoute (HashCall.init [0, 1] 0) 0 HashCallExamples.evictZero).1
+    st.fo = { nodes := [1], failed := [], dead := [(0, 0)], lastDeadCheck := 0 } ∧
+    HashCall.projOK HashCallExamples.cfgNoRetry HashCallExamples.getIllegal
+      (HashCall.callM {} HashCallExamples.cfgNoRetry prefRoute st 1 HashCallExamples.getIllegal).2 = false ∧
+    (HashCall.callM {} HashCallExamples.cfgNoRetry prefRoute st 1 HashCallExamples.getIllegal).2.res = .illegalKey ∧
+    (HashCall.callM {} HashCallExamples.cfgNoRetry prefRoute st 1 HashCallExamples.getIllegal).2.batches.length = 0 ∧
+    (HashCall.callM {} HashCallExamples.cfgNoRetry prefRoute st 1 HashCallExamples.getIllegal).1.fo =
+      { nodes := [1, 0], failed := [], dead := [], lastDeadCheck := 10 } ∧
+    (run HashCallExamples.cfgNoRetry prefRoute st.proj
+        (HashCall.absOfCall {} HashCallExamples.cfgNoRetry prefRoute st 1 HashCallExamples.getIllegal).1).2 =
+      [(.multi [true, true], [(0, 10, .ok)])] :=
+  HashCallExamples.demo_illegalKey_needed
+
+/-- C13 (`HashClient ∘ Client`, general histories, both window bounds).  In every general composed history (single-key
+calls, `get_many` / `gets_many`, `set_many`, `delete_many`) whose clock never goes back, in which every call satisfies
+`HashCall.projOK`, and which contains no `set_many` if `ignore_exc` is on (the known defect, see
+`C13_hash_setmany_ignoreexc_counterexample`), for every server `s`: among the contacts to `s` during which the inner
+`Client.call` raised an `OSError` (`HashCall.contactLogM`: all contacts of the run with the outcomes of the real inner
+calls), any window `[t, t + retry_timeout]` contains at most two; and among those made since the last contact to `s` that
+returned normally, any window `[t, t + dead_timeout]` contains at most `retry_attempts + 2`. -/
+theorem C13_hash_many_probing_windows (ccfg : Wire.Cfg) (c : Cfg) (route : List Srv → RK → Option Srv) (hlaw : RouteLaw route)
+    (hlt : c.rt < c.dt) (servers : List Srv) (t0 : Time) (calls : List (HashCall.MCall RK))
+    (hch : HashCall.ChronoM t0 calls)
+    (hok : HashCall.allProjOK c calls (HashCall.runM ccfg c route (HashCall.init servers t0) 0 calls).2 = true)
+    (hns : c.ignoreExc = true → ∀ mc ∈ calls, mc.op.isSetMany = false) (s : Srv) :
+    let L := HashCall.contactLogM calls (HashCall.runM ccfg c route (HashCall.init servers t0) 0 calls).2
+    (∀ t : Time, countIn t c.rt (oserrTimes s L) ≤ 2) ∧
+    (∀ t : Time, countIn t c.dt (oserrTimes s (sinceLastOk s L)) ≤ c.ra + 2) := by
+  intro L
+  have hproj := C13_hash_many_projection ccfg c route hlaw servers t0 calls
+  simp only at hproj
+  have hL : L = contactsOf (run c route (init servers t0)
+      (HashCall.absOfRun ccfg c route (HashCall.init servers t0) 0 calls).1).2 := by
+    rw [hproj hok]
+    exact (HashCall.contactsOf_absOfRun ccfg c route (HashCall.init servers t0) 0 calls).symm
+  have hchr := HashCall.chrono_absOfRun ccfg c route (HashCall.init servers t0) 0 t0 calls hch
+  have hns' : NoSetManyUnderIgnoreExc c (HashCall.absOfRun ccfg c route (HashCall.init servers t0) 0 calls).1 :=
+    fun hi e he => HashCall.absOfRun_noSetMany ccfg c route (HashCall.init servers t0) 0 calls (hns hi) e he
+  rw [hL]
+  exact ⟨(C13_le_two_per_rt_window c route hlaw hlt servers t0 _ hchr hns' s).2,
+    (C13_le_ra_plus_two_per_dt_window c route hlaw hlt servers t0 _ hchr hns' s).2⟩
+
+/-- non-vacuity: `HashCallExamples.setCalls` (four `set_many`, two `delete_many`, `ignore_exc=False`) is chronological and
+satisfies `projOK`; the `OSError` contacts to server 0 happen at 1 (`set_many`), 3 (`delete_many`) and 5 (`set_many`, the
+final probe after the eviction). -/
+example : HashCall.ChronoM 0 HashCallExamples.setCalls ∧ RouteLaw prefRoute ∧
+    HashCallExamples.cfgStrict.rt < HashCallExamples.cfgStrict.dt ∧
+    HashCall.allProjOK HashCallExamples.cfgStrict HashCallExamples.setCalls
+      (HashCall.runM {} HashCallExamples.cfgStrict prefRoute (HashCall.init [0, 1] 0) 0 HashCallExamples.setCalls).2 = true ∧
+    (HashCallExamples.cfgStrict.ignoreExc = true → ∀ mc ∈ HashCallExamples.setCalls, mc.op.isSetMany = false) ∧
+    oserrTimes 0 (HashCall.contactLogM HashCallExamples.setCalls
+      (HashCall.runM {} HashCallExamples.cfgStrict prefRoute (HashCall.init [0, 1] 0) 0 HashCallExamples.setCalls).2) = [1, 3, 5] :=
+  ⟨by simp [HashCall.ChronoM, HashCallExamples.setCalls], prefRoute_law, by decide, HashCallExamples.demo_set_projection.1,
+    (fun h => by cases h), by decide +kernel⟩
+
+/-- C13 (known defect `C13-setmany-ignoreexc`, at the level of `HashClient ∘ Client`).  A `HashClient(ignore_exc=True,
+retry_attempts=1, retry_timeout=1, dead_timeout=5)` over servers 0 and 1; server 0 is down: every inner
+`Client.call … (.setMany …)` on its client object fails with a socket error (`ECONNREFUSED`).
+
+1. Five `set_many({k: v})` at the same tick: server 0 is contacted by every one of them (five `OSError` contacts within
+   one `retry_timeout` — the bound is 2 — and within one `dead_timeout` since the last success — the bound is
+   `retry_attempts + 2 = 3`), it is never marked failed nor evicted, and every call returns `[]`: no key is reported.
+   The history satisfies `projOK`, so this is the abstract counterexample `C13_setmany_ignoreexc_counterexample` with the
+   environment computed from real inner calls.
+2. A failing `get` at t=0 marks server 0; a failing `set_many` at t=2 (retry window open) *clears* the failure record. -/
+theorem C13_hash_setmany_ignoreexc_counterexample :
+    let calls := HashCallExamples.setDownCalls
+    let r := HashCall.runM {} HashCallExamples.cfgIgnore prefRoute (HashCall.init [0, 1] 0) 0 calls
+    let L := HashCall.contactLogM calls r.2
+    HashCall.ChronoM 0 calls ∧
+    HashCall.allProjOK HashCallExamples.cfgIgnore calls r.2 = true ∧
+    L = [(0, 0, .oserror), (0, 0, .oserror), (0, 0, .oserror), (0, 0, .oserror), (0, 0, .oserror)] ∧
+    countIn 0 HashCallExamples.cfgIgnore.rt (oserrTimes 0 L) = 5 ∧
+    countIn 0 HashCallExamples.cfgIgnore.dt (oserrTimes 0 (sinceLastOk 0 L)) = 5 ∧
+    r.1.fo = { nodes := [0, 1], failed := [], dead := [], lastDeadCheck := 0 } ∧
+    (∀ ob ∈ r.2, ob.res = .value (.keys [])) ∧
+    (HashCall.runM {} HashCallExamples.cfgIgnore prefRoute (HashCall.init [0, 1] 0) 0
+        (HashCallExamples.setClearsCalls.take 1)).1.fo =
+      { nodes := [0, 1], failed := [(0, 0, 0)], dead := [], lastDeadCheck := 0 } ∧
+    (HashCall.runM {} HashCallExamples.cfgIgnore prefRoute (HashCall.init [0, 1] 0) 0 HashCallExamples.setClearsCalls).1.fo =
+      { nodes := [0, 1], failed := [], dead := [], lastDeadCheck := 0 } ∧
+    HashCall.contactLogM HashCallExamples.setClearsCalls
+        (HashCall.runM {} HashCallExamples.cfgIgnore prefRoute (HashCall.init [0, 1] 0) 0 HashCallExamples.setClearsCalls).2 =
+      [(0, 0, .oserror), (0, 2, .oserror)] := by
+  refine ⟨by simp [HashCall.ChronoM, HashCallExamples.setDownCalls, HashCallExamples.setDownAt],
+    by decide +kernel, by decide +kernel, by decide +kernel, by decide +kernel, by decide +kernel, by decide +kernel,
+    by decide +kernel, by decide +kernel, by decide +kernel⟩
+
+end hashmany
 
 end Failover
